@@ -13,6 +13,7 @@ E1 = {
     "C09": (["contracts.c09"], ["XMLBIFReader.get_edges", "BIFReader.get_edges", "NETReader.get_edges"]),
     "C10": (["contracts.c10"], ["StructureScore.score"]),
     "C11": (["contracts.c11"], ["HillClimbSearch._legal_operations", "HillClimbSearch.estimate"]),
+    "C12": (["contracts.c12"], ["PDAG.to_dag"]),
     "C13": (["contracts.c13"], ["DAG.do", "CausalInference.is_valid_backdoor_adjustment_set", "CausalInference.get_all_backdoor_adjustment_sets",
                                  "CausalInference.is_valid_frontdoor_adjustment_set", "CausalInference.get_all_frontdoor_adjustment_sets"]),
     "C14": (["contracts.c14"], ["BayesianNetwork.to_markov_model", "UndirectedGraph.is_clique"]),
